@@ -326,7 +326,7 @@ Proof.
   destruct (bucket (sh_meta s) c') as [b|] eqn:B; [|now rewrite delete_objs_none].
   destruct (delete_objs_spec s c' (i :: r) b I B) as (b' & E & O & Gb & Cg & W' & G'); [discriminate|].
   destruct (inv_bucket s c' b I B) as [[Wo Wg] _].
-  rewrite E. unfold slot, entry_at, mark_at, cgc_at. simpl sh_meta. simpl sh_blob.
+  rewrite E. unfold slot, entry_at, mark_at, cgc_at. cbn [sh_meta sh_blob].
   fold (bucket (set_bucket (sh_meta s) c' b') c). fold (bucket (sh_meta s) c).
   rewrite blob_has_dels.
   destruct (N.eq_dec c c') as [->|Nc].
@@ -349,7 +349,7 @@ Proof.
   intros I B Hin. destruct (delete_objs_spec s c ids b I B) as (b' & E & O & Gb & Cg & W' & G').
   { intros ->. contradiction. }
   destruct (inv_bucket s c b I B) as [[Wo Wg] _].
-  rewrite E. unfold entry_at, mark_at. simpl sh_meta. simpl sh_blob.
+  rewrite E. unfold entry_at, mark_at. cbn [sh_meta sh_blob].
   fold (bucket (set_bucket (sh_meta s) c b') c). rewrite bucket_set_eq, O, Gb, blob_has_dels, N.eqb_refl.
   rewrite !dels_get_in by auto. repeat split; auto.
   replace (existsb (N.eqb x) ids) with true by (symmetry; now apply existsb_eqb_in). simpl. apply andb_false_r.
@@ -373,7 +373,7 @@ Proof. intros [W _]. unfold bucket. simpl. now apply sm_get_del_eq. Qed.
 
 Lemma drop_cnr_slot s c' c x : inv s -> c' <> c -> slot (drop_cnr s c') c x = slot s c x.
 Proof.
-  intros [W _] Ne. unfold slot, entry_at, mark_at, cgc_at, drop_cnr. simpl sh_meta. simpl sh_blob.
+  intros [W _] Ne. unfold slot, entry_at, mark_at, cgc_at, drop_cnr, set_meta. cbn [sh_meta sh_blob].
   fold (bucket (fst (step (sh_meta s) (ODeleteCnr c'))) c). fold (bucket (sh_meta s) c).
   rewrite bucket_drop_ne by auto. reflexivity.
 Qed.
